@@ -86,6 +86,8 @@ def tasks(tier):
         out.append({"sort": sort, "depth": depth, "file": "join.tet"})
     # a large specimen (384 cells: cell / face / edge ids beyond 256): cache states reachable with <= 1 event, argument
     # domains thinned by a fixed stride
+    out.append({"sort": True, "depth": 2, "big": "fansplit30:border_last"})      # 4 border vertices with the largest ids
+    out.append({"sort": True, "depth": 2, "big": "fansplit30:border_first"})
     out.append({"sort": True, "depth": 2, "big": "cubegrid4"})
     out.append({"sort": False, "depth": 2, "big": "cubegrid4"})
     # configuration deviation: config.display_duplicate_attribute_warning = True makes create_attribute hand back an
@@ -460,7 +462,10 @@ def run_task(task, rep: Report):
     try:
         events = _events(sort)
         if "big" in task:
-            pts, cells = F.cube_grid_tets(4)
+            if task["big"].startswith("fansplit"):
+                pts, cells = F.fan_split_tet(30, border_last=task["big"].endswith("border_last"))
+            else:
+                pts, cells = F.cube_grid_tets(4)
             _explore(M, task["big"], len(pts), pts, cells, sort, rep, events, lambda: F.build_volume(pts, cells, tuple), big=True)
             return
         if "file" in task:
